@@ -49,6 +49,14 @@ func writeEvidence(prop string, o *checkOpts, results []*exec.HarnessResult, con
 		stale = append(stale, filepath.Base(f)+": "+why)
 	}
 	sort.Strings(stale)
+	crossChecked, crossAgreed, crossUnknown := 0, 0, 0
+	crossDisagree := []string{}
+	for _, r := range results {
+		crossChecked += r.CrossChecked
+		crossAgreed += r.CrossAgreed
+		crossUnknown += r.CrossUnknown
+		crossDisagree = append(crossDisagree, r.CrossDisagree...)
+	}
 	for _, r := range results {
 		b := map[string]string{"unwind": fmt.Sprint(r.Cfg.Unwind), "max_steps": fmt.Sprint(r.Cfg.MaxSteps)}
 		for k, v := range r.Cfg.Opts {
@@ -162,6 +170,10 @@ func writeEvidence(prop string, o *checkOpts, results []*exec.HarnessResult, con
 			"counterexamples":                     viol,
 			"known_findings_matched":              knownHits,
 			"load_failed":                         loadFailed,
+			"cross_solver_rechecked_unsat":        crossChecked,
+			"cross_solver_agreed":                 crossAgreed,
+			"cross_solver_unknown":                crossUnknown,
+			"cross_solver_disagreements":          crossDisagree,
 			"traces_validated_against_impl":       validated,
 			"native_validation_mismatches":        validationFailed,
 			"native_validation":                   "witness inputs (and recorded schedules) of sampled PASSING symbolic paths are run against the compiled harness + real code with go test -overlay; a failure would mean the executor, a stub or the replay machinery disagrees with the compiler",
